@@ -41,6 +41,10 @@ var kinds = []kind{
 	{name: "panic-error", isPanic: true, reportable: true},
 	{name: "panic-string", isPanic: true, reportable: true},
 	{name: "panic-int", isPanic: true, reportable: true},
+	// a panic is a panic whatever its value: one whose value is (or wraps) an error listed in
+	// ExcludedErrors must still be reported as ErrRecoveredPanic
+	{name: "panic-excluded", isPanic: true, reportable: true},
+	{name: "panic-wrapped-excluded", isPanic: true, reportable: true},
 	{name: "skip", quiet: true},
 	{name: "eof", quiet: true},
 	{name: "abort", unconstrained: true},
@@ -61,6 +65,10 @@ func fail(k kind) error {
 		panic("boom")
 	case "panic-int":
 		panic(42)
+	case "panic-excluded":
+		panic(errExcluded)
+	case "panic-wrapped-excluded":
+		panic(fmt.Errorf("while working: %w", errExcluded))
 	case "skip":
 		return fun.ErrIteratorSkip
 	case "eof":
@@ -299,8 +307,10 @@ func scenario(cs construct, n, w int, c conf, k kind, pos []int) vs.Scenario {
 						return "item-not-processed-in-continue-mode/" + k.name, where + fmt.Sprintf(": item %d processed %d times (calls %d of %d)", it, count[it], len(o.calls), n)
 					}
 				}
-			} else if (k.reportable || (k.excluded && !c.exclude)) && !k.unconstrained {
-				// abort mode with a reportable failure
+			} else if k.reportable || (k.excluded && !c.exclude) || (k.ctxErr && c.inclCtx) || (k.unconstrained && !c.contErr && !c.contPanic) {
+				// abort mode with a reportable failure (for ErrCurrentOpAbort, whose reporting the
+				// statement does not settle, only in pure abort mode: the worker that returned it
+				// stops and so does the group)
 				var first *call
 				for _, cl := range o.calls {
 					if failAt[cl.item] && (first == nil || cl.end < first.end) {
